@@ -133,7 +133,7 @@ def run_check(prop, name, tier, meta, dst):
     rc, out = sh(["git", "-C", "/repo", "apply", os.path.join(dst, "patch.diff")], "/repo")
     try:
         t0 = time.time()
-        env = dict(ENV, VERIF_REPLAYS_DIR="/verif/.work/seed-replays")
+        env = dict(ENV, VERIF_REPLAYS_DIR="/verif/.work/seed-replays", VERIF_EVIDENCE_DIR="/verif/.work/seed-evidence")
         p = subprocess.run(["/verif/check", prop, tier], cwd="/verif", env=env, stdout=subprocess.PIPE, stderr=subprocess.STDOUT)
         out = p.stdout.decode("utf-8", "replace")
         keys = sorted(set(l.split("key=")[1].split(" ")[0] for l in out.splitlines() if "failed: key=" in l))
